@@ -12,6 +12,7 @@ mod migr;
 mod mutimg;
 mod partition;
 mod race;
+mod scansched;
 mod seq;
 mod sweepsched;
 mod term;
@@ -38,6 +39,8 @@ fn main() {
         "scan" => race::run_scan(&opts),
         "sweep" => race::run_sweep(&opts),
         "sweepsched" => sweepsched::run(&opts),
+        "scansched" => scansched::run(&opts),
+        "scanschedchild" => scansched::child(&opts),
         "sweepschedchild" => sweepsched::child(&opts),
         "term" => term::run(&opts),
         "termchild" => term::termchild(&opts),
